@@ -395,9 +395,45 @@ def check_size_index_posting(ctx):
               sample='posting only when the token count is not 0')
 
 
+def check_filter_flag_reaches_base(ctx):
+    """filter_pair / filter_candset / filter_tables read self.allow_missing, which only the base class stores: every
+    filter's constructor must hand its allow_missing to Filter.__init__ on every path, and that must store it"""
+    repo = ctx.repo
+    from .common import FILTER_BASE
+    base = repo.fn(FILTER_BASE, 'Filter.__init__')
+    stores = [n for n in walk_own(base.node) if isinstance(n, ast.Assign) and U(n.targets[0]) == 'self.allow_missing']
+    ctx.check('R-MISS/flag-stored', base, 'Filter.__init__', len(stores) == 1 and U(stores[0].value) == 'allow_missing'
+              and stores[0] in base.node.body,
+              'Filter.__init__ does not store its allow_missing argument as self.allow_missing', base.node,
+              sample='self.allow_missing = allow_missing')
+    for cls, (path, _, _) in sorted(FILTERS.items()):
+        f = repo.fn(path, cls + '.__init__')
+        view = view_of(f)
+        calls = []
+        for c in repo.calls_in(f):
+            if isinstance(c.func, ast.Attribute) and c.func.attr == '__init__':
+                r = repo.resolve_call(f, c)
+                direct = isinstance(c.func.value, ast.Call) and call_name(c.func.value) == 'super' or U(c.func.value) == 'Filter'
+                if (r is not None and r[0] is base) or direct:
+                    calls.append(c)
+        ok = False
+        why = 'the constructor never calls Filter.__init__: self.allow_missing stays unset'
+        if calls:
+            c = calls[0]
+            args = [a for a in c.args if not (isinstance(a, ast.Name) and a.id == 'self')] + [k.value for k in c.keywords if k.arg == 'allow_missing']
+            ok = len(args) == 1 and U(view.expand(args[0], view.stmt_of(c))) == 'allow_missing'
+            why = 'Filter.__init__ is called with `%s`, not with the allow_missing the caller passed' % (U(args[0])[:40] if args else 'nothing')
+            if ok:
+                # on every normal path: the call is a top-level statement of the constructor (validators before it raise)
+                ok = view.stmt_of(c) in f.node.body
+                why = 'Filter.__init__ is called only conditionally'
+        ctx.check('R-MISS/flag-stored', f, cls, ok, why, calls[0] if calls else f.node, sample='%s -> Filter.__init__(allow_missing)' % cls)
+
+
 def run(ctx, miss=True, empty=True):
     if miss:
         ctx.group('R-MISS')
+        check_filter_flag_reaches_base(ctx)
         check_dropna(ctx)
         check_matcher_missing(ctx)
         check_partition(ctx)
